@@ -167,6 +167,15 @@ def run_stmt(s, regs, ins, outs, st):
             continue
         if op == "ignore":
             rt.ignore_errors(bool(s[1])); continue
+        if op == "try":
+            # runner-only statement (not in the Coq model): run the body, swallow an ordinary exception, carry on
+            depth = len(st["gstack"])
+            try:
+                run_stmts(s[1], regs, ins, outs, st)
+            except Exception as e:
+                st.setdefault("caught", []).append((st["pc"], type(e).__name__))
+                del st["gstack"][depth:]
+            continue
         if op == "arrset":
             a, idx, v = regs[s[1]], [regs[q] for q in s[2]], regs[s[3]]
             a[idx[0] if len(idx) == 1 else tuple(idx)] = v
@@ -178,6 +187,12 @@ def run_stmt(s, regs, ins, outs, st):
             tgt = getattr(st["bv"], "v%d" % s[1])
             for i in s[2][:-1]: tgt = tgt[i]
             tgt[s[2][-1]] = regs[s[3]]; continue
+        if op == "bset_uncopyable":
+            # runner-only: a variable holding an object copy.deepcopy cannot copy (the snapshot taken on entering a block fails)
+            setattr(st["bv"], "v%d" % s[1], (x for x in [1])); continue
+        if op == "barrset":
+            idx = [regs[q] for q in s[2]]
+            getattr(st["bv"], "v%d" % s[1])[idx[0] if len(idx) == 1 else tuple(idx)] = regs[s[3]]; continue
         if op == "raise":
             raise {"KeyboardInterrupt": KeyboardInterrupt, "SystemExit": SystemExit, "ValueError": ValueError, "RuntimeError": RuntimeError}[s[1]]("raised by the program")
         if op == "breakif":
@@ -281,6 +296,7 @@ def run_stmt(s, regs, ins, outs, st):
             st["snark_returns"].append(plain(ret))
             v = None
         elif op == "arrnew": v = Array([regs[q] for q in s[2]])
+        elif op == "arrcopy": v = Array(regs[s[2]])
         elif op == "arrget":
             idx = [regs[q] for q in s[3]]
             v = regs[s[2]][idx[0] if len(idx) == 1 else tuple(idx)]
@@ -315,6 +331,7 @@ def run_case(case):
     R.reset(p)
     if REAL: p = R.P
     rt.guard = None; rt._ignore_errors = bool(cfg["ign"]); LinComb.ONE = ONE0
+    for m in case.get("reimport", ()): sys.modules.pop(m, None)     # the case's first use of these modules imports them afresh
     rt.bitlength = cfg["n"]; fx.resolution = cfg["res"]
     w = lambda k: 1 if k == 0 else (R.pubs[k - 1] if k > 0 else R.privs[-k - 1])
     outs = []; st = {"pc": 0, "coh": [], "w": w, "vals": [], "snap": {}, "mutated": [], "gstack": [], "probes": [], "exn_ctx": None, "condvals": {}, "guard_conds": [], "snark_returns": []}
@@ -327,6 +344,7 @@ def run_case(case):
             AttributeError, StopIteration, KeyboardInterrupt, SystemExit) as e:
         exn = type(e).__name__
         st["msg"] = str(e)[:200]
+        import traceback as _tb; st["tb"] = _tb.format_exc()[-900:]
     st["bv"].stack.clear()      # BranchingValues.__del__ raises when branches are left open
     st["final_bvals"] = {k: plain(v) for k, v in st["bv"].vals.items()}
     g = rt.guard
@@ -340,7 +358,7 @@ def run_case(case):
     for i, (a, b, c) in enumerate(R.cons):
         ev = lambda l: sum(cf * w(k) for k, cf in items(l))
         if (ev(a) * ev(b) - ev(c)) % p != 0: unsat.append(i)
-    rec = {"id": case.get("id"), "exn": exn, "msg": st.get("msg"), "nvars": len(R.kinds), "ncons": len(cons), "npub": len(R.pubs),
+    rec = {"id": case.get("id"), "exn": exn, "msg": st.get("msg"), "tb": st.get("tb"), "nvars": len(R.kinds), "ncons": len(cons), "npub": len(R.pubs),
            "dig": [D.digest_vars(p, R.kinds, R.pubs, R.privs), D.digest_cons(p, cons), D.digest_outs(p, outs), D.digest_exn(p, exn, cur)],
            "unsat": unsat[:5], "incoherent": st["coh"][:5], "mutated": st["mutated"][:5], "floatbad": st.get("floatbad", False), "pc": st["pc"],
            "shape": [D.digest_cons(p, cons), "".join(R.kinds), D.digest_outs(p, [(t, 0, l) for t, v, l in outs if t > 0])],
